@@ -16,7 +16,8 @@
 
   Missing for the full `eval_refines_spec` (kept out so that the theorem is true and proved):
     * `< > <= >=` are covered by `eval_refines_spec_with_ordering` under the explicit hypothesis
-      `OrdExact` ("int → float is order-exact below 2^53" for the soft-float: validated by the C20
+      `OrdExact` ("int → float is order-exact below 2^53" for the soft-float — now the THEOREM `ordExact`,
+      see `eval_refines_spec_ordering`; formerly only validated by the C20
       correspondence, not proved); `eval_refines_spec_partial` needs no hypothesis and excludes them;
     * collections: data-reference accesses, list / map literals, functions — and printing a map, where
       the real code (and hence the model) DEVIATES from Appendix A (items sorted as `k: v` strings
@@ -24,6 +25,7 @@
       C01eval oracle's findings.  The refinement is false there, so no theorem can state it.
 -/
 import SoyVerif.Lemmas.EvalRefine
+import SoyVerif.Lemmas.F64Order
 
 namespace SoyVerif.Props.C01
 open SoyVerif SoyVerif.Model SoyVerif.Model.Eval SoyVerif.Refine
@@ -429,6 +431,47 @@ theorem eval_refines_spec_with_ordering (hx : OrdExact) (e : Expr) (hf : fragO c
   eval_refines_spec_ord hr true (fun _ => hx) e hf
 end
 
+/-! ### `OrdExact` is a theorem -/
+
+/-- int → float conversion is order-exact on the integers of magnitude ≤ 2^53: proved from the definitions
+    of the soft-float (`Lemmas/F64Order.lean`: `roundRatMag n 1` does not round below 2^53, the magnitude
+    bits are strictly increasing in `n`, the order is the order of the sign·magnitude keys) -/
+theorem ordExact : OrdExact := by
+  intro x y hx hy
+  simp only [Spec.Eval.small, Spec.Eval.two53, decide_eq_true_eq] at hx hy
+  have hx' : -9007199254740992 ≤ x ∧ x ≤ 9007199254740992 := of_decide_eq_true hx
+  have hy' : -9007199254740992 ≤ y ∧ y ≤ 9007199254740992 := of_decide_eq_true hy
+  exact F64.ofInt_order x y (by simp only [F64.two53]; omega) (by simp only [F64.two53]; omega)
+
+section
+variable {m : EEnv} {s : Spec.Eval.Env} (hr : EnvRel m s)
+include hr
+
+/-- the refinement with `< > <= >=`, WITHOUT hypothesis: on the fragment `fragO true` (scalar operators and
+    the ordering comparisons on int/int, int/float, float/float operands, ints within ±2^53 as the
+    specification demands) the model evaluates to what the specification says, and errs where it errs -/
+theorem eval_refines_spec_ordering (e : Expr) (hf : fragO true e = true) : Sim m s e :=
+  eval_refines_spec_with_ordering hr ordExact e hf
+end
+
+/-- beyond 2^53 the conversion is NOT order-exact, in the model as in Go (`exec.go` compares
+    `toFloat(a) < toFloat(b)`): 2^53 + 1 rounds to 2^53, so `9007199254740993 > 9007199254740992` is false
+    and `9007199254740992 >= 9007199254740993` is true (the real soyhtml prints exactly that; `==` on two
+    ints is exact and says false) — which is why the specification's ordering is stated for |i| ≤ 2^53 -/
+theorem ord_inexact_beyond_two53 :
+    F64.ofInt 9007199254740993 = F64.ofInt 9007199254740992 ∧
+    F64.lt (F64.ofInt 9007199254740992) (F64.ofInt 9007199254740993) = false ∧
+    F64.le (F64.ofInt 9007199254740993) (F64.ofInt 9007199254740992) = true ∧
+    F64.lt (F64.ofInt 9223372036854775806) (F64.ofInt 9223372036854775807) = false := by decide +kernel
+
+/-- at the edge: 2^53 − 1 < 2^53, −2^53 < −2^53 + 1 are decided correctly -/
+example : F64.lt (F64.ofInt 9007199254740991) (F64.ofInt 9007199254740992) = true ∧
+    F64.lt (F64.ofInt (-9007199254740992)) (F64.ofInt (-9007199254740991)) = true ∧
+    F64.le (F64.ofInt 9007199254740992) (F64.ofInt 9007199254740991) = false :=
+  ⟨by simpa using (ordExact 9007199254740991 9007199254740992 (by decide) (by decide)).1,
+   by simpa using (ordExact (-9007199254740992) (-9007199254740991) (by decide) (by decide)).1,
+   by simpa using (ordExact 9007199254740992 9007199254740991 (by decide) (by decide)).2⟩
+
 /-! ### an erroring print writes nothing -/
 
 theorem evalIn_out {g : GEnv} {e : Expr} {ctx : Scope} {st st1 : St} {v : Value}
@@ -535,6 +578,10 @@ def e1 : Expr := .tern 0 (.bin .lt 0 x0 (.int 0 4)) (.str 0 [] [108, 116]) (.str
 
 example (hx : OrdExact) : ∃ mv n', evalE m0 e1 7 = .ok mv n' ∧ absV mv = .str [108, 116] := by
   obtain ⟨mv, n', h1, h2, _⟩ := (eval_refines_spec_with_ordering rel0 hx e1 (by decide) 7).1 (.str [108, 116]) (by rfl)
+  exact ⟨mv, n', h1, h2⟩
+/-- … and without the hypothesis -/
+example : ∃ mv n', evalE m0 e1 7 = .ok mv n' ∧ absV mv = .str [108, 116] := by
+  obtain ⟨mv, n', h1, h2, _⟩ := (eval_refines_spec_ordering rel0 e1 (by decide) 7).1 (.str [108, 116]) (by rfl)
   exact ⟨mv, n', h1, h2⟩
 
 /-- ordering non-numbers is an error on both sides; `'a' - 1` is inside and is an error on both sides -/
